@@ -52,17 +52,17 @@ func Format(input []byte) []byte {
 
 		newLines int // count of newlines consumed
 
-		comment bool // whether we're in a comment
-		quoted  bool // whether we're in a quoted segment
-		escaped bool // whether current char is escaped
+		comment    bool // whether we're in a comment
+		quoted     bool // whether we're in a quoted segment
+		backquoted bool // whether we're in a backquoted segment
+		escaped    bool // whether current char is escaped
 
 		heredoc              heredocState // whether we're in a heredoc
 		heredocEscaped       bool         // whether heredoc is escaped
 		heredocMarker        []rune
 		heredocClosingMarker []rune
 
-		nesting         int // indentation level
-		withinBackquote bool
+		nesting int // indentation level
 	)
 
 	write := func(ch rune) {
@@ -89,10 +89,6 @@ func Format(input []byte) []byte {
 			}
 			panic(err)
 		}
-		if ch == '`' {
-			withinBackquote = !withinBackquote
-		}
-
 		// detect whether we have the start of a heredoc
 		if !quoted && !(heredoc != heredocClosed || heredocEscaped) &&
 			space && last == '<' && ch == '<' {
@@ -161,6 +157,16 @@ func Format(input []byte) []byte {
 			}
 		}
 
+		// like the lexer, treat a token that starts with a backquote
+		// as literal up to the closing backquote (no escapes inside)
+		if backquoted {
+			if ch == '`' {
+				backquoted = false
+			}
+			write(ch)
+			continue
+		}
+
 		if !escaped && ch == '\\' {
 			if space {
 				write(' ')
@@ -190,6 +196,10 @@ func Format(input []byte) []byte {
 
 		if space && ch == '"' {
 			quoted = true
+		}
+
+		if space && ch == '`' {
+			backquoted = true
 		}
 
 		if unicode.IsSpace(ch) {
@@ -245,18 +255,9 @@ func Format(input []byte) []byte {
 				write(' ')
 			}
 			openBraceWritten = false
-			if withinBackquote {
-				write('{')
-				openBraceWritten = true
-				continue
-			}
 			continue
 
 		case ch == '}' && (spacePrior || !openBrace):
-			if withinBackquote {
-				write('}')
-				continue
-			}
 			if last != '\n' {
 				nextLine()
 			}
